@@ -148,8 +148,27 @@ func scnConnReelect(grace time.Duration, secondD bool) *Scenario {
 	return s
 }
 
+// scnConnSlowDemoteStop: the grace period expires with no reconnect; the application's
+// OnDemote takes 150 ms and then calls Status(); a Stop arrives 60 ms into the callback.
+func scnConnSlowDemoteStop(grace time.Duration, stop string) *Scenario {
+	s := scnConn([]string{"disconnect"}, grace, "none", false, "none")
+	s.Name += "/slow-ondemote-then-" + stop
+	s.Insts[0].DemoteDur = 150 * ms
+	t := 1*s.H + 47*ms + 11*us
+	it := Item{At: t + effGrace(grace, s.H) + 60*ms, Actor: "life", Do: stop, Inst: "A", Fixed: true}
+	if stop == "stopctx" {
+		it.DeleteKey = true
+	}
+	s.Script = append(s.Script, it)
+	s.Horizon += 6 * time.Second // Stop's own 5 s wait
+	return s
+}
+
 func c11Plan(tier string) []PlanItem {
 	var items []PlanItem
+	items = append(items,
+		PlanItem{scnConnSlowDemoteStop(2*200*ms+7*ms+13*us, "stop"), 1},
+		PlanItem{scnConnSlowDemoteStop(2*200*ms+7*ms+13*us, "stopctx"), 1})
 	items = append(items, PlanItem{scnConnFlap(2*200*ms + 7*ms + 13*us), 1})
 	items = append(items,
 		PlanItem{scnConnReelect(3*200*ms+ms+17*us, true), 1},
